@@ -15,6 +15,9 @@
 (*   [k |-> "align", n |-> Nat, bits |-> BOOLEAN]                          *)
 (*   [k |-> "fill",  v |-> word, n |-> Int]                                *)
 (*   [k |-> "bin",   b |-> Seq(Byte)]           .binfile of a file holding b *)
+(*   [k |-> "seg",   bss |-> BOOLEAN]           .bss / .code: in .bss every  *)
+(*                                              statement that places bytes  *)
+(*                                              is an error                  *)
 (*   [k |-> "endian", big |-> BOOLEAN]                                     *)
 (*   [k |-> "label", n |-> STRING]                                         *)
 (* An Item is [k |-> "num", v |-> word] | [k |-> "str", b |-> Seq(Byte)]   *)
@@ -103,8 +106,12 @@ EmitItems(st, s, i, bpa, syms, dummy) ==
                      n  == [st EXCEPT !.img = PutSeq(@, st.pc, bs, 1), !.pc = @ + s.w]
                  IN IF Forced(n) THEN EmitItems(n, s, i + 1, bpa, syms, dummy) ELSE n
 
+\* (.data_fill in .bss is accepted by the code and nothing documents otherwise: left as it is)
+Places(s) == s.k \in {"data", "bin"}
 Exec(st, s, bpa, syms) ==
-  CASE s.k = "org"    -> [st EXCEPT !.pc = s.a * bpa]
+  IF st.bss /\ Places(s) THEN [st EXCEPT !.err = TRUE] ELSE
+  CASE s.k = "seg"    -> [st EXCEPT !.bss = s.bss]
+    [] s.k = "org"    -> [st EXCEPT !.pc = s.a * bpa]
     [] s.k = "data"   -> EmitItems(st, s, 1, bpa, syms, 0)
     [] s.k = "res"    -> [st EXCEPT !.pc = @ + s.n * s.sz]
     [] s.k = "align"  -> IF AlignOk(s) THEN [st EXCEPT !.pc = AlignUp(@, AlignBytes(s))]
@@ -124,7 +131,7 @@ Run(prog, i, st, bpa, syms) ==
 
 Denote(prog, bpa, big0) ==
   LET ly == Syms(prog, bpa)
-      st == Run(prog, 1, [pc |-> 0, img |-> <<>>, big |-> big0, err |-> ly.dup], bpa, ly.syms)
+      st == Run(prog, 1, [pc |-> 0, img |-> <<>>, big |-> big0, err |-> ly.dup, bss |-> FALSE], bpa, ly.syms)
   IN [err |-> st.err, img |-> st.img, syms |-> ly.syms, pc |-> st.pc]
 
 \* ---- observation side -----------------------------------------------------------
